@@ -1,6 +1,7 @@
 """C09 - issued certificates, CSRs and CRLs parse back and verify only under the issuer (x509.Create*)."""
 ID = "C09"
 PROPS = "Props/C09.v"
+COQ_TIMEOUT = 5400   # Coq build of this property incl. rebuilt dependencies; generous: on a loaded machine a rebuild after an upstream edit took > 1500 s
 GEN = ["x509tables"]
 LEGS = [{"driver": "c09", "runner": ("x509", "Extract/ExtractX509.v", "X509_model")}]
 
